@@ -73,27 +73,39 @@ def sf_unchanged(eng, st, args, kw, node):
 
 
 def sf_heap_unchanged(eng, st, args, kw, node):
-    """every field of every object that existed at entry is unchanged (the function is pure w.r.t. objects)"""
+    """every field of every object that existed at entry is unchanged, except the locations named by the string
+    arguments ("self.f": field f of self only; "f": field f of any object)"""
     o = eng.old_state
     if o is None:
         raise Unsupported("heap_unchanged() outside a postcondition")
+    excl_self, excl_all = set(), set()
+    for a in args:
+        name = eng.static_str(a)
+        if name.startswith("self."):
+            excl_self.add(name[5:])
+        else:
+            excl_all.add(name)
     conj = []
-    fields = [a.items if False else a for a in args]
     names = set(st.heap) | set(o.heap)
     for name in sorted(names):
         if not (name.startswith("f_") or name.startswith("fnone_")):
             continue
+        fname = name.split("_", 1)[1]
+        if fname in excl_all:
+            continue
         m1 = st.heap.get(name)
         m0 = o.heap.get(name)
-        if m1 is None or m0 is None:
-            if m0 is None and m1 is not None:
-                m0 = z3.Const(name + "0", m1.sort())
-            else:
-                continue
+        if m1 is None:
+            continue
+        if m0 is None:
+            m0 = z3.Const(name + "0", m1.sort())
         if m0.get_id() == m1.get_id():
             continue
         x = z3.Int(eng.ctx.fresh_name("o"))
-        conj.append(z3.ForAll([x], z3.Implies(z3.And(x >= 0, x < o.alloc), m0[x] == m1[x]), patterns=[m1[x]]))
+        guard = z3.And(x >= 0, x < o.alloc)
+        if fname in excl_self:
+            guard = z3.And(guard, x != st.env["self"].z)
+        conj.append(z3.ForAll([x], z3.Implies(guard, m0[x] == m1[x]), patterns=[m1[x]]))
     return _b(z3.And(*conj) if conj else z3.BoolVal(True))
 
 
@@ -180,3 +192,136 @@ BuiltinMixin.SPEC_FUNCS.update({
     "argsort_pos": sf_argsort_pos, "completion": sf_completion, "completion_inv": sf_completion_inv, "mean": sf_mean,
     "isnan": sf_isnan, "isinf": sf_isinf, "user": sf_user,
 })
+
+
+def sf_view_eq(eng, st, args, kw, node):
+    a, b = args
+    pa, pb = st.read_field(a, "position"), st.read_field(b, "position")
+    ca, cb = st.read_field(a, "cost"), st.read_field(b, "cost")
+    fa, fb = st.read_field(a, "fitness"), st.read_field(b, "fitness")
+    return _b(z3.And(pa.z == pb.z, ca.z == cb.z, fa.z == fb.z))
+
+
+BuiltinMixin.SPEC_FUNCS.update({"view_eq": sf_view_eq})
+
+
+def sf_greedy_outcome(eng, st, args, kw, node):
+    """o is the outcome of the greedy comparison between incumbent a and challenger b"""
+    o, a, b = args
+    ca, cb = st.read_field(a, "cost"), st.read_field(b, "cost")
+    return _b(z3.If(cb.z < ca.z, o.z == b.z, sf_view_eq(eng, st, [o, a], kw, node).z))
+
+
+BuiltinMixin.SPEC_FUNCS.update({"greedy_outcome": sf_greedy_outcome})
+
+
+# ---- task / agent vocabulary (DESIGN §3) ---------------------------------------------------------------------------------
+def _uf(name, *sorts):
+    return z3.Function(name, *sorts)
+
+
+def flat_var(task_z, i):
+    return _uf("flat", z3.IntSort(), z3.IntSort(), z3.IntSort())(task_z, i)
+
+
+def dom(var_z, val_z):
+    return _uf("Dom", z3.IntSort(), z3.IntSort(), z3.BoolSort())(var_z, val_z)
+
+
+def sf_flat(eng, st, args, kw, node):
+    task, i = args
+    return V(("obj", "Variable"), flat_var(task.z, i.z))
+
+
+def sf_Dom(eng, st, args, kw, node):
+    var, val = args
+    return _b(dom(var.z, val.z))
+
+
+def space_of(eng, st, task: V, p: V):
+    n = st.seq_len(p)
+    el = st.seq_elems(p)
+    i = z3.Int(eng.ctx.fresh_name("sp"))
+    dim = st.read_field(task, "space_dimension").z
+    return z3.And(n == dim, z3.ForAll([i], z3.Implies(z3.And(i >= 0, i < n), dom(flat_var(task.z, i), el[i])),
+                                      patterns=[el[i]]))
+
+
+def sf_Space(eng, st, args, kw, node):
+    return _b(space_of(eng, st, args[0], args[1]))
+
+
+def objective(eng, st, task: V, p: V):
+    """the user's objective at position p (scalar view): an uninterpreted function of the coordinates"""
+    el = st.seq_elems(p)
+    return _uf("Fobj", z3.IntSort(), el.sort(), z3.IntSort(), eng.ctx.fsort())(task.z, el, st.seq_len(p))
+
+
+def sf_F(eng, st, args, kw, node):
+    return V(("float",), objective(eng, st, args[0], args[1]))
+
+
+def weighted(eng, st, task: V, p: V):
+    """W(F(p)): the objective itself, or the weight-vector dot product of the objective list"""
+    el = st.seq_elems(p)
+    if eng.case_env.get("__obj__", "scalar") == "scalar":
+        return objective(eng, st, task, p)      # scalar objective, no weights (ValidTask): W(F) is F
+    return _uf("WF", z3.IntSort(), el.sort(), z3.IntSort(), eng.ctx.fsort())(task.z, el, st.seq_len(p))
+
+
+def sf_WF(eng, st, args, kw, node):
+    return V(("float",), weighted(eng, st, args[0], args[1]))
+
+
+def fit(eng, u):
+    """documented fitness of a user-sign cost: 1/(1+c) for c >= 0, 1+|c| otherwise (real mode: 1/(1+c) opaque)"""
+    if eng.ctx.float_mode == "fp":
+        rm = z3.RNE()
+        one = z3.FPVal(1.0, z3.Float64())
+        return z3.If(z3.fpGEQ(u, z3.FPVal(0.0, z3.Float64())), z3.fpDiv(rm, one, z3.fpAdd(rm, u, one)),
+                     z3.fpAdd(rm, one, z3.fpAbs(u)))
+    inv = _uf("fdiv", z3.RealSort(), z3.RealSort(), z3.RealSort())
+    return z3.If(u >= 0, inv(z3.RealVal(1), u + 1), 1 + z3.If(u >= 0, u, -u))
+
+
+def sf_Fit(eng, st, args, kw, node):
+    return V(("float",), fit(eng, st.to_float(args[0]).z))
+
+
+def sf_Valid(eng, st, args, kw, node):
+    """Valid(task, a): position in the space, internal cost = sgn * W(F(position)), fitness = Fit(user cost)"""
+    task, a = args
+    p = st.read_field(a, "position")
+    cost = st.read_field(a, "cost").z
+    fitn = st.read_field(a, "fitness").z
+    ismax = st.read_field(task, "minmax").z == ENUM_MEMBERS["TaskType"]["MAX"]
+    wf = weighted(eng, st, task, p)
+    return _b(z3.And(space_of(eng, st, task, p), cost == z3.If(ismax, -wf, wf), fitn == fit(eng, wf)))
+
+
+def sf_nobj(eng, st, args, kw, node):
+    """number of values returned by the task's objective function (1 for a scalar objective)"""
+    return V(("int",), _uf("nobj", z3.IntSort(), z3.IntSort())(args[0].z))
+
+
+BuiltinMixin.SPEC_FUNCS.update({"flat": sf_flat, "Dom": sf_Dom, "Space": sf_Space, "F": sf_F, "WF": sf_WF, "Fit": sf_Fit,
+                                "Valid": sf_Valid, "nobj": sf_nobj})
+
+
+def sf_is_scalar_objective(eng, st, args, kw, node):
+    return _b(_uf("scalar_objective", z3.IntSort(), z3.BoolSort())(args[0].z))
+
+
+def sf_scalar_case(eng, st, args, kw, node):
+    return _b(z3.BoolVal(eng.case_env.get("__obj__", "scalar") == "scalar"))
+
+
+def sf_nanfree(eng, st, args, kw, node):
+    """no continuous coordinate of the candidate is NaN (abstract predicate on the candidate's elements)"""
+    task, p = args
+    el = st.seq_elems(p)
+    return _b(_uf("nanfree", z3.IntSort(), el.sort(), z3.IntSort(), z3.BoolSort())(task.z, el, st.seq_len(p)))
+
+
+BuiltinMixin.SPEC_FUNCS.update({"is_scalar_objective": sf_is_scalar_objective, "scalar_case": sf_scalar_case,
+                                "nanfree": sf_nanfree})
